@@ -3,7 +3,7 @@
    and Proofs/PolicyPre.v. *)
 From Coq Require Import List NArith ZArith Bool.
 From RB Require Import Base.Val Model.Policy Model.PolicyTable Model.PolicyPre Spec.PolicySpec
-  Model.PolicyGlobal Proofs.Policy Proofs.PolicyTable Proofs.PolicyPre Proofs.PolicyWire Proofs.PolicyWf Proofs.PolicyGlobal.
+  Model.PolicyGlobal Proofs.Policy Proofs.PolicyTable Proofs.PolicyPre Proofs.PolicyWire Proofs.PolicyWf Proofs.PolicyGlobal Proofs.PolicyContent Proofs.PolicyGlobalWf.
 Import ListNotations.
 Open Scope N_scope.
 
@@ -173,6 +173,64 @@ Check api_built_assignments_wf :
   forall l a, let t := run_history empty_table l in
               (t_imp t = Some a \/ t_exp t = Some a) -> wf_assignment a.
 Print Assumptions api_built_assignments_wf.
+
+(* 10b. what a merged prefix set contains: of the entries given in the call the
+        last per (masked address, length), plus the old entries whose key the
+        call does not restate; 0.0.0.0/0 and ::/0 keep the new range if given,
+        else the old one -- per family *)
+Theorem prefix_merge_content :
+  forall old l es z z6 l4 l6 s,
+    set_ku (SPrefix old) ->
+    parse_all pfx_parse l = Some es -> split_pfx es = (z, z6, l4, l6) ->
+    build_set (Some (SPrefix old)) (CfgPrefix l) = Ok (inl s) ->
+    exists p, s = SPrefix p /\
+      ps_zero p = or_else z (ps_zero old) /\ ps_zero6 p = or_else z6 (ps_zero6 old) /\
+      (forall f, In f (ps_v4 p) <->
+         In f (last_per_key (map (mk4 32) l4)) \/ (In f (ps_v4 old) /\ existsb (pent_same_key f) (map (mk4 32) l4) = false)) /\
+      (forall f, In f (ps_v6 p) <->
+         In f (last_per_key (map (mk4 128) l6)) \/ (In f (ps_v6 old) /\ existsb (pent_same_key f) (map (mk4 128) l6) = false)).
+Proof. exact C14_prefix_merge_content. Qed.
+Check prefix_merge_content :
+  forall old l es z z6 l4 l6 s,
+    set_ku (SPrefix old) ->
+    parse_all pfx_parse l = Some es -> split_pfx es = (z, z6, l4, l6) ->
+    build_set (Some (SPrefix old)) (CfgPrefix l) = Ok (inl s) ->
+    exists p, s = SPrefix p /\
+      ps_zero p = or_else z (ps_zero old) /\ ps_zero6 p = or_else z6 (ps_zero6 old) /\
+      (forall f, In f (ps_v4 p) <->
+         In f (last_per_key (map (mk4 32) l4)) \/ (In f (ps_v4 old) /\ existsb (pent_same_key f) (map (mk4 32) l4) = false)) /\
+      (forall f, In f (ps_v6 p) <->
+         In f (last_per_key (map (mk4 128) l6)) \/ (In f (ps_v6 old) /\ existsb (pent_same_key f) (map (mk4 128) l6) = false)).
+Print Assumptions prefix_merge_content.
+
+(* 10c. keys are unique in every prefix set stored after any history of calls
+        (the hypothesis of 10b holds of every stored set) *)
+Theorem stored_sets_keys_unique :
+  forall l k n s, lookup_set k n (t_sets (run_history empty_table l)) = Some s -> set_ku s.
+Proof. exact C14_history_keys_unique. Qed.
+Check stored_sets_keys_unique :
+  forall l k n s, lookup_set k n (t_sets (run_history empty_table l)) = Some s -> set_ku s.
+Print Assumptions stored_sets_keys_unique.
+
+(* 10d. no CRUD call panics unless a prefix-set entry has host bits inside the
+        nibble that holds its mask boundary (the treebitmap panic recorded as out
+        of scope is exactly the complement: Proofs/PolicyContent.v hostbits_panic) *)
+Theorem crud_total_on_canonical_prefixes :
+  forall t o, op_canonical o -> exists t' code, crud_step t o = Ok (t', code).
+Proof. exact C14_crud_total_canonical. Qed.
+Check crud_total_on_canonical_prefixes :
+  forall t o, op_canonical o -> exists t' code, crud_step t o = Ok (t', code).
+Print Assumptions crud_total_on_canonical_prefixes.
+
+(* 10e. the export policy a peer's session evaluates after any history of
+        Global-level calls (its override, else the global slot) satisfies the
+        well-formedness hypothesis of theorem 1 *)
+Theorem peer_effective_export_wf :
+  forall l peer a, effective_export (grun_history empty_global l) peer = Some a -> wf_assignment a.
+Proof. exact C14_peer_effective_export_wf. Qed.
+Check peer_effective_export_wf :
+  forall l peer a, effective_export (grun_history empty_global l) peer = Some a -> wf_assignment a.
+Print Assumptions peer_effective_export_wf.
 
 (* 11. the repaired findings, against the model of the code before each repair *)
 Theorem prefix_set_longest_match_refuted :
